@@ -101,6 +101,9 @@ func skipTag(data []byte, wireType csproto.WireType) (skip int, err error) {
 		if err != nil {
 			return 0, err
 		}
+		if size > uint64(len(data)-n) {
+			return 0, io.ErrUnexpectedEOF
+		}
 		skip = int(size) + n
 	case csproto.WireTypeFixed32:
 		skip = 4
